@@ -184,3 +184,7 @@ def run(ctx):
     check_dimsize(ctx, prog)
     r12.run_r12(ctx, prog)
     check_cmp(ctx, prog)
+    from rules import r8subarray
+    ctx.rule("R8.subarray", "type_create_subarray64 builds the type map of MPI_Type_create_subarray for dimensions beyond 2^31-1 (bounded)")
+    ns = r8subarray.check(ctx, ctx.need_fn(prog, "type_create_subarray64"), "R8.subarray")
+    ctx.require(ns >= 100, "R8.subarray: only %d requests evaluated" % ns)
